@@ -4,7 +4,7 @@ import "strings"
 
 func init() {
 	register("C17", runC17, propMeta{
-		Explanation: "Decides the acquire/release pairing and conservation of engine instances, for all arrival orders and for requests that fail or panic: (W1) gengineWrapper values are allocated only in NewGenginePool, poolMinLen + (poolMaxLen - poolMinLen) of them with tags forming a bijection onto [0,max); the free lists are touched only by construction, getGengine and putGengineLocked, so a wrapper leaves a list only by the pop that hands it to one caller; (W2) in all 24 pool execute methods a deferred function is registered after a successful acquire before anything else runs or returns — defer covers error returns and panics — and it puts back the same wrapper exactly once; putGengineLocked appends it exactly once to the list selected by gw.addition under that list's lock; (W3) the head of a list is read and popped in one critical section under the list lock and the exclusive getEngineLock, so no two callers obtain the same wrapper; (W4) every return of getGengine yields the head of a list known non-empty and a nil error, its only other way on is the retry of the wait loop with no lock held, so busy callers wait and returning requests can always put. No pass of the wait loop ends without having found both lists empty. (W5) no pool mutex is held while rules run. (W6) every function that locks a mutex of the pool (getEngineLock, runningLock, additionLock, updateLock) unlocks it on every way out and holds it across code that can fault only with the unlock deferred: a leaked getEngineLock stops every later request beside free instances. Not decided: that a spinning waiter is eventually scheduled (fairness), timing. A request method makes one acquiring call and calls no other request method of the pool (one-acquire). In the deferred function no way to its end — a return or a panic raised again — avoids putGengineLocked (put-on-every-way-out).",
+		Explanation: "Decides the acquire/release pairing and conservation of engine instances, for all arrival orders and for requests that fail or panic: (W1) gengineWrapper values are allocated only in NewGenginePool, poolMinLen + (poolMaxLen - poolMinLen) of them with tags forming a bijection onto [0,max); the free lists are touched only by construction, getGengine and putGengineLocked, so a wrapper leaves a list only by the pop that hands it to one caller; (W2) in all 24 pool execute methods a deferred function is registered after a successful acquire before anything else runs or returns — defer covers error returns and panics — and it puts back the same wrapper exactly once; putGengineLocked appends it exactly once to the list selected by gw.addition under that list's lock; (W3) the head of a list is read and popped in one critical section under the list lock and the exclusive getEngineLock, so no two callers obtain the same wrapper; (W4) every return of getGengine yields the head of a list known non-empty and a nil error, its only other way on is the retry of the wait loop with no lock held, so busy callers wait and returning requests can always put. No pass of the wait loop ends without having found both lists empty. (W5) no pool mutex is held while rules run. (W6) every function that locks a mutex of the pool (getEngineLock, runningLock, additionLock, updateLock) unlocks it on every way out and holds it across code that can fault only with the unlock deferred: a leaked getEngineLock stops every later request beside free instances. Not decided: that a spinning waiter is eventually scheduled (fairness), timing. A request method makes one acquiring call and calls no other request method of the pool (one-acquire). In the deferred function no way to its end — a return or a panic raised again — avoids putGengineLocked (put-on-every-way-out). (W7) no lock of the product is held without a deferred unlock across code that can fault on rule data: the hand-back needs the data context's lock.",
 		Assumptions: []string{"sync.Mutex/RWMutex contracts", "the Go runtime eventually schedules the goroutine started by putGengineLocked"},
 		Trusted:     commonTrusted,
 	})
@@ -21,6 +21,11 @@ func runC17(c *Ctx) {
 	c.Min("W3-W4-free-lists", 8)
 	// no pool lock is held while rules run: a request that keeps a pool lock for the length of its rules
 	// lets the others wait on that lock beside free instances (the pool then serves one request at a time)
+	// the hand-back deletes the request's keys under the data context's lock: a lock of the product left
+	// locked by a recovered fault (held without a deferred unlock across code that can fault on rule
+	// data, C09-R9) blocks that delete for ever and the instance never comes back
+	c.ruleLockPanicSafe("W7-no-lock-left-behind-by-a-fault")
+	c.Min("W7-no-lock-left-behind-by-a-fault", 20)
 	c.ruleLifecycle("W5-no-pool-lock-while-rules-run", map[string]bool{"engine-call1-no-lock": true, "engine-call2-no-lock": true, "engine-call3-no-lock": true, "engine-call4-no-lock": true})
 	c.Min("W5-no-pool-lock-while-rules-run", 24)
 	// a pool mutex that stays locked takes the whole pool with it: getEngineLock is on the way of every
